@@ -64,6 +64,9 @@ def build_v1(spec):
     if outs:
         y += "  output:\n    flows:\n" + "".join("      - %s\n" % _rail_flow_name("out", i, r) for i, r in enumerate(outs))
     mode = spec.get("mode", "rails_only")
+    rets = int(spec.get("ret_rails", 0))
+    if rets:
+        y += "  retrieval:\n    flows:\n" + "".join("      - ret rail %d\n" % i for i in range(rets))
     y += "  dialog:\n    single_call:\n      enabled: %s\n" % ("true" if mode == "single_call" else "false")
     if mode == "embeddings_only":
         y += "    user_messages:\n      embeddings_only: true\n"
@@ -84,6 +87,8 @@ def build_v1(spec):
         if any(r["kind"] == "shipped" for r in outs):
             y += "  - task: self_check_output\n    content: |-\n      CHECKOUT {{ bot_response }}\n      Should it be blocked (Yes or No)?\n"
     co = []
+    for i in range(rets):
+        co.append('define subflow ret rail %d\n  execute sim_retrieval(rail="ret%d")\n' % (i, i))
     for i, r in enumerate(ins):
         co.append(_v1_rail_flow("in", i, r))
     for i, r in enumerate(outs):
@@ -144,8 +149,12 @@ def build_v2(spec):
     mode = spec.get("mode", "rails_only")
     # one turn: wait for any user utterance (input rails run inside `user said something`), ask the
     # LLM through a simulated generation action (its text is 'LLM made'), say it (output rails run).
-    co.append("flow conversation\n  user said something as $u\n  $reply = await SimGenerateAction(text=$u.transcript)\n"
-              "  if $reply\n    bot say $reply\n  else\n    bot say \"" + INTERNAL_ERROR + "\"\n")
+    if spec.get("say_empty"):
+        # the flow says whatever the LLM produced, an empty message too
+        co.append("flow conversation\n  user said something as $u\n  $reply = await SimGenerateAction(text=$u.transcript)\n  bot say $reply\n")
+    else:
+        co.append("flow conversation\n  user said something as $u\n  $reply = await SimGenerateAction(text=$u.transcript)\n"
+                  "  if $reply\n    bot say $reply\n  else\n    bot say \"" + INTERNAL_ERROR + "\"\n")
     if ins:
         body = "".join("  in rail r%d $input_text\n" % i for i in range(len(ins)))
         co.append("flow input rails $input_text\n" + body)
@@ -295,6 +304,9 @@ class Responder:
                 return "bot answer other %s\nuser ask topic 0" % (tok or "x").strip("#")
             return "bot answer other %s" % (tok or "x").strip("#")
         tail = (self.spec.get("llm_tail") or {}).get(tok or "", "")  # what a chatty LLM adds after the closing quote
+        if tok in (self.spec.get("llm_empty") or ()) and task in ("generate_bot_message", "general", "unknown"):
+            # an LLM that has nothing to say in this turn
+            return ""
         if task == "generate_bot_message":
             if self.spec.get("mode") == "passthrough_dialog":
                 # passthrough: the LLM is prompted with the user's own text and its answer is used as it is (no quoting convention)
@@ -432,6 +444,11 @@ class RailsWorld:
                 return rewritten(rail, text or "")
             return text
 
+        @action(is_system_action=True, name="sim_retrieval")
+        async def sim_retrieval(rail, context=None):
+            await world._action_entry("retrieval", rail, (context or {}).get("user_message"))
+            return True
+
         async def sim_dialog(name, context=None):
             await world._action_entry("dialog", name, (context or {}).get("user_message"))
             return "value-%s" % name
@@ -460,6 +477,7 @@ class RailsWorld:
             self.app.register_action(sim_rail, "sim_rail")
             self.app.register_action(sim_rewrite, "sim_rewrite")
             self.app.register_action(sim_dialog, "sim_dialog")
+            self.app.register_action(sim_retrieval, "sim_retrieval")
 
     def _wrap_shipped(self, side, v1_name, v2_name):
         import functools
